@@ -49,7 +49,7 @@ class C15(core.Check):
                    'absolute scratch-directory paths printed by the listing are normalised before comparison')
     chunk = 2500
     crosscheck_every = {'quick': 200, 'thorough': 200}
-    required_buckets = {b: 3 for b in ['prog:overlapping-vocabulary', 'prog:command-line-symbol-given-twice', 'var:output-file-already-there', 'prog:tilde-directory', 'var:hashseed', 'var:env', 'var:cwd', 'var:include-order', 'var:include-duplicate',
+    required_buckets = {b: 3 for b in ['prog:overlapping-vocabulary', 'prog:register-name-beginning-with-another-register', 'prog:command-line-symbol-given-twice', 'var:output-file-already-there', 'prog:tilde-directory', 'var:hashseed', 'var:env', 'var:cwd', 'var:include-order', 'var:include-duplicate',
                                        'var:include-symlink', 'prog:generated-isa', 'prog:multi-file', 'prog:example',
                                        'include-dirs>=3', 'ambiguous-include-name']}
 
@@ -146,7 +146,7 @@ class C15(core.Check):
                                  ['jmp.l', 'jmpx', 'jmp', 'jm', 'j', 'l'], ['st.k', 'stk', 'st', 'k.st', 'k']]):
             rng = core.rng_for(0, self.pid, 'vocab', k)
             isa = gen_prog.layout_isa(16)
-            isa['general']['registers'] = ['a', 'b', 'sp', 'r1', 'r10', 'r11', 'r', 'spx', 'x', 'xsp']
+            isa['general']['registers'] = ['a', 'b', 'sp', 'r1', 'r10', 'r11', 'r', 'spx', 'x', 'xsp', 'ah', 'bh', 'b1', 'b10', 'ch']
             isa['operand_sets']['any8'] = {'operand_values': {'n8': {'type': 'numeric', 'argument': {'size': 8, 'byte_align': True}}}}
             isa['instructions'] = {}
             for n_, m_ in enumerate(mns):
@@ -163,6 +163,11 @@ class C15(core.Check):
                 'yy_e1': {'type': 'enumeration', 'bytecode': {'size': 4, 'value_dict': {'kx': 5, 'ky': 6}}, 'argument': {'size': 8, 'byte_align': True, 'value_dict': {'kx': 1, 'ky': 2}}},
                 'cc_e2': {'type': 'enumeration', 'bytecode': {'size': 4, 'value_dict': {'kx': 7, 'kz': 8}}, 'argument': {'size': 8, 'byte_align': True, 'value_dict': {'kx': 3, 'kz': 4}}}}}
             isa['instructions']['tie4'] = {'bytecode': {'value': 9, 'size': 4}, 'operands': {'count': 1, 'operand_sets': {'list': ['tie']}}}
+            # registers whose names begin like shorter register names and read as numbers (AH, b1), behind a numeric variant
+            isa['operand_sets']['rnum'] = {'operand_values': {f'r_{r_}': {'type': 'register', 'register': r_, 'bytecode': {'value': n_, 'size': 4}}
+                                                              for n_, r_ in enumerate(['a', 'ah', 'b', 'bh', 'b1', 'b10', 'ch'])}}
+            isa['instructions']['nr4'] = {'bytecode': {'value': 11, 'size': 4}, 'operands': {'count': 1, 'operand_sets': {'list': ['any8']}},
+                                          'variants': [{'bytecode': {'value': 12, 'size': 4}, 'operands': {'count': 1, 'operand_sets': {'list': ['rnum']}}}]}
             # enumeration keys that differ in letter case only are different keys - in every run
             ck_ = {'N': 1, 'n': 2, 'Kq': 3, 'kQ': 4, 'KQ': 5, 'kq': 6, 'zed': 7}
             isa['operand_sets']['casekeys'] = {'operand_values': {
@@ -174,6 +179,7 @@ class C15(core.Check):
                 src.append(m_ + (' 5' if n_ % 2 else ''))
             src += ['tie4 [sp]', 'tie4 [sp+3]', 'tie4 5', 'tie4 kx', 'tie4 ky', 'tie4 kz', 'tie4 [sp]']
             src += ['cas4 ' + k_ for k_ in ck_]
+            src += ['nr4 ' + t_ for t_ in ('a', 'b', '5', '$0A')]
             src.append(mns[0] + 'x2')
             src.append('m.' + mns[2])
             for a_ in range(len(mns)):
@@ -193,6 +199,21 @@ class C15(core.Check):
             yield self.build_runs({fn: text, 'p.asm': src_d}, 'p.asm', fn, ['.'],
                                   {'prog:command-line-symbols', 'prog:command-line-symbol-given-twice' if dup else 'prog:command-line-symbols-distinct'},
                                   extra_argv=extra)
+        # two registers, one name beginning with the other and reading as a number, behind a numeric variant: one small program
+        # per pair (whatever is made of "nr4 AH", it is the same in every run)
+        for short_, long_ in (('a', 'ah'), ('b', 'bh'), ('b', 'b1'), ('b1', 'b10'), ('c', 'ch'), ('d', 'd0h')):
+            isa = gen_prog.layout_isa(16)
+            isa['general']['registers'] = list(dict.fromkeys(list(isa['general']['registers']) + [short_, long_]))
+            isa['operand_sets']['any8'] = {'operand_values': {'n8': {'type': 'numeric', 'argument': {'size': 8, 'byte_align': True}}}}
+            isa['operand_sets']['rnum'] = {'operand_values': {'r_s': {'type': 'register', 'register': short_, 'bytecode': {'value': 1, 'size': 4}},
+                                                              'r_l': {'type': 'register', 'register': long_, 'bytecode': {'value': 2, 'size': 4}}}}
+            isa['instructions'] = {'nr4': {'bytecode': {'value': 11, 'size': 4}, 'operands': {'count': 1, 'operand_sets': {'list': ['any8']}},
+                                           'variants': [{'bytecode': {'value': 12, 'size': 4}, 'operands': {'count': 1, 'operand_sets': {'list': ['rnum']}}}]}}
+            isa.pop('macros', None)
+            fn, text = isamod.render_isa(isa, 'json')
+            src_r = ''.join(f'nr4 {t_}\n' for t_ in (long_.upper(), long_, short_, short_.upper(), '5'))
+            yield self.build_runs({fn: text, 'p.asm': src_r}, 'p.asm', fn, ['.'], {'prog:register-name-beginning-with-another-register',
+                                                                                    'prog:overlapping-vocabulary'})
         for k, (src_s, img_s) in enumerate([('.byte 1, 2, 3\n', '010203'), ('nop\nldi 5\n.2byte $1234\n', 'eaa9051234'), ('.org 2\n.byte 7\n', '000007')]):
             isa = gen_prog.layout_isa(16)
             fn, text = isamod.render_isa(isa, 'json')
